@@ -113,6 +113,25 @@ var props = map[string]propDef{
 		QuickS: 60, ThoroughS: 1200, Recycle: 40, Level: "exploration",
 		Rule: "development: all H4 oracles", Assume: h4assume,
 	},
+	"C40": {
+		ID: "C40", Harness: "h6net", Mode: "C40", Pkgs: dbPkgs,
+		QuickS: 60, ThoroughS: 1200, Recycle: 150, Level: "exploration",
+		Rule: "each run: two identical databases; 1-4 sessions on one simulated connection each run a generated program of 3-25 operations (begin read/update transaction, query with sort / where / project, get next/prev, output incl. records up to 900 KB, update, erase, insert/update/delete statements, get-one in four directions, complete/abort, admin requests on the session's own table, think) through the real client, TLS, mux and server, and the same program directly on a DbmsLocal of the twin; the transport fragments writes, shortens reads and delays delivery by tape choices; the tape decides every interleaving of sessions, mux reader, workers and both database pipelines. Non-trivial: at least one session ran. Distinct: run digest.",
+		Assume: h6assume,
+		Comps:  h6comps,
+	},
+	"C41": {
+		ID: "C41", Harness: "h6net", Mode: "C41", Pkgs: dbPkgs,
+		QuickS: 60, ThoroughS: 1200, Recycle: 150, Level: "exploration",
+		Rule: "each run: a database with a users table; one connection authenticates properly (nonce + password hash), obtains 0-2 tokens and keeps reading; 1-3 unauthenticated connections each send 5-60 generated requests: nonce, allowed requests, authentication attempts (wrong password, right password over own fresh / used / expired nonce, over another connection's nonce, made up token, token handed to the authenticated party, empty), every typed request (Admin, Check, Connections, Cursor, Cursors, Exec, Final, Get, Info, Kill, Log, Run, Size, Timestamp, Token, Transaction, Transactions) and raw transaction / query / cursor commands with ids 0-3; think times up to 150 s so that nonces and tokens expire. Non-trivial: at least 3 requests had to be refused. Distinct: run digest.",
+		Assume: h6assume,
+		Comps:  h6comps,
+	},
+	"H6ALL": {
+		ID: "H6ALL", Harness: "h6net", Mode: "ALL", Pkgs: dbPkgs,
+		QuickS: 60, ThoroughS: 1200, Recycle: 150, Level: "exploration",
+		Rule: "development: all H6 oracles", Assume: h6assume,
+	},
 	"H3ALL": {
 		ID: "H3ALL", Harness: "h3txn", Mode: "ALL", Pkgs: dbPkgs,
 		QuickS: 60, ThoroughS: 1200, Recycle: 400, Level: "exploration",
@@ -130,4 +149,20 @@ var h4assume = []string{
 	"the page cache model of a crash: the file content at a scheduler step, then truncated; power-loss images (only msync'ed pages survive) are out of scope",
 	"transactions are sequential in this harness (concurrency between clients is H3's subject); rows are modelled from the operations the implementation accepted",
 	"interleavings at synchronisation operations only; real file system calls (ftruncate, mmap, msync, rename) are executed for real",
+}
+
+var h6assume = []string{
+	"TCP is replaced by an in-bubble byte pipe (simnet) with short reads / fragmented writes / delays; resets and message duplication or reordering are not injected (a reset ends the client process by design)",
+	"the client half of the hello exchange and TLS upgrade is a copy of ConnectClient's code after dialing (hook VerifConnectClient)",
+	"Exec / Run / Schema need the interpreter's builtins and are not exercised in the differential programs",
+}
+
+var h6comps = map[string]string{
+	"dbms server: newServerConn (hello, TLS, unauthorized wrapper), doRequest, all cmd handlers, background expiry": "real",
+	"dbms/mux: reader, write, WriteBuf/ReadBuf, Workers incl. killer": "real",
+	"dbms client: NewDbmsClient, sessions, transactions, queries": "real",
+	"dbms.DbmsLocal, dbms/query engine, db19 (heap store)": "real",
+	"crypto/tls": "real (Ed25519 throw-away certificate from the overlay)",
+	"TCP": "stub: simnet in-memory pipe with tape-driven fragmentation and delay",
+	"golang.org/x/time/rate": "simrate: same token bucket, waits under the scheduler",
 }
